@@ -55,7 +55,10 @@ type C04 struct {
 	recs     map[int]*curator.VerifRecovery
 	// gen -> tract -> servers whose CORRUPTION was reported to that incarnation and not yet cleared by a
 	// successful recovery task of that tract (removeCompletedTasks forgets the reports of a tract then)
-	reported map[int]map[core.TractID]map[int]bool
+	// The value is the serial number of the damage that was reported (corruptSeq): a replica that was replaced,
+	// re-created by a pull and damaged AGAIN is a new damage nobody has reported yet.
+	reported   map[int]map[core.TractID]map[int]int
+	corruptSeq map[int]map[core.TractID]int
 	lastDur  map[core.TractID]curator.VerifTractState
 	prev     map[int]map[core.TractID]c04Rep
 	tasks    map[int]*c04Task
@@ -66,7 +69,7 @@ type C04 struct {
 
 func NewC04(d *Driver) *C04 {
 	c := &C04{D: d, Killed: map[core.TractID]bool{}, Repulled: map[core.TractID]bool{},
-		recs: map[int]*curator.VerifRecovery{}, reported: map[int]map[core.TractID]map[int]bool{},
+		recs: map[int]*curator.VerifRecovery{}, reported: map[int]map[core.TractID]map[int]int{}, corruptSeq: map[int]map[core.TractID]int{},
 		lastDur: map[core.TractID]curator.VerifTractState{}, prev: map[int]map[core.TractID]c04Rep{}, tasks: map[int]*c04Task{},
 		W: C04Weights{Corrupt: 5, Delete: 4, Scrub: 8, Beat: 8, Check: 5, Health: 2, Detect: 8, Pop: 14, Hopeless: 2}}
 	d.Extra = c.extra
@@ -100,7 +103,7 @@ func (c *C04) rec() *curator.VerifRecovery {
 	if !ok {
 		r = c.D.Cl.Cur.C04Recovery()
 		c.recs[g] = r
-		c.reported[g] = map[core.TractID]map[int]bool{}
+		c.reported[g] = map[core.TractID]map[int]int{}
 	}
 	return r
 }
@@ -146,6 +149,12 @@ func (c *C04) Corrupt(ts, blob, tract int) *Event {
 	c.ensure()
 	tid := c.D.tractID(blob, tract)
 	ok := tractserver.C04Corrupt(c.D.Cl.TS[ts], tid)
+	if ok {
+		if c.corruptSeq[ts] == nil {
+			c.corruptSeq[ts] = map[core.TractID]int{}
+		}
+		c.corruptSeq[ts][tid]++
+	}
 	c.Faults++
 	c.D.nFaults++
 	return c.finish(&Event{Code: EvC04Corrupt}, []int64{EvC04Corrupt, int64(ts), int64(blob), int64(tract)}, []int64{b2i(ok)})
@@ -202,9 +211,9 @@ func (c *C04) Beat(ts int) *Event {
 	for _, id := range bad {
 		if tractserver.C04IsCorrupt(t, id) {
 			if c.reported[g][id] == nil {
-				c.reported[g][id] = map[int]bool{}
+				c.reported[g][id] = map[int]int{}
 			}
-			c.reported[g][id][ts] = true
+			c.reported[g][id][ts] = c.corruptSeq[ts][id]
 		}
 	}
 	return c.finish(&Event{Code: EvC04Beat}, []int64{EvC04Beat, int64(ts)}, c.encTracts(bad))
@@ -272,14 +281,17 @@ func (c *C04) Detect() (*Event, curator.VerifDetect) {
 	g := c.D.Cl.Cur.Gen
 	for id, m := range c.reported[g] {
 		st := c.D.Cl.D.Tract(id)
-		for ts := range m {
+		for ts, seq := range m {
 			isHost := false
 			for _, h := range st.Hosts {
 				if int(h) == ts {
 					isHost = true
 				}
 			}
-			if !isHost || !tractserver.C04IsCorrupt(c.D.Cl.TS[ts], id) {
+			if !isHost || !tractserver.C04IsCorrupt(c.D.Cl.TS[ts], id) || seq != c.corruptSeq[ts][id] {
+				// the report is moot (the curator prunes servers that are no hosts; the copy was replaced) or it
+				// was about an earlier damage of a copy that has been re-created since
+				delete(m, ts)
 				continue
 			}
 			have := false
@@ -645,7 +657,7 @@ func (c *C04) Heal(maxRounds int) int {
 		for ts := 1; ts <= nts; ts++ {
 			for _, bt := range d.durableTracts() {
 				tid := d.tractID(bt[0], bt[1])
-				if tractserver.C04IsCorrupt(d.Cl.TS[ts], tid) && !c.reported[g][tid][ts] {
+				if seq, rep := c.reported[g][tid][ts]; tractserver.C04IsCorrupt(d.Cl.TS[ts], tid) && !(rep && seq == c.corruptSeq[ts][tid]) {
 					c.Scrub(ts, bt[0], bt[1])
 				}
 			}
